@@ -42,7 +42,7 @@ func init() {
 
 func init() {
 	Registry["C18"] = func(c *Ctx) {
-		c.R.Rule = "Pool alone: the real TaskWorkerPool driven directly by 2-4 callers on 1-2 workers with no stop / an interrupt / a task that cancels when it ends / a direct Shutdown (plus early-clock-tick variants when callers wait in the queue), every schedule with <= 3 (quick; bound 2 complete) / 4 deviations: no panic, never more than num_workers tasks running, no task twice, Run returns its own task's result, at most 2*num_workers already accepted jobs (queue + one per worker) start after Shutdown returned. scenario = (graph of <=4 nodes, optional failing target, fail-fast, num_workers) plus one external cancel event (what SIGINT/SIGTERM trigger via SetupCommand's context) delivered by a dedicated goroutine at ANY scheduling point; real Walker + pool under every choice sequence with <= d deviations; oracles: Walk returns, no command starts after the cancel was delivered, an interrupt with unfinished targets surfaces as an error. Non-trivial = at least one command ran. Process half (real binary, real signals): a workspace with num_workers=1, five short targets and a directory-output target; a fault-free run of the instrumented binary logs every instance of every file-system call site from loading to shutdown; for every instance (quick: <= 3 per call site, alternating SIGINT/SIGTERM; thorough: every instance with both signals) the process sends the signal to itself exactly there and writes a marker into the command trace: grog must exit within 60 s, at most one queued command may still start after the marker, the exit status is non-zero when targets were unfinished, the cache holds no more target results than commands that finished and passes the offline audit (no result referencing a blob that was not stored), and an uninstrumented follow-up build acquires the (stale) lock, exits 0 and produces the outputs of a from-scratch build. Finally the running command itself interrupts grog (SIGINT/SIGTERM, with and without a shell that traps the signals): non-zero exit, dependant not started, no cache entry, and the shell does not survive (it would create a marker file 2 s later)."
+		c.R.Rule = "Pool alone: the real TaskWorkerPool driven directly by 2-4 callers on 1-2 workers with no stop / an interrupt / a task that cancels when it ends / a direct Shutdown (plus early-clock-tick variants when callers wait in the queue), every schedule with <= 3 (quick; bound 2 complete) / 4 deviations: no panic, never more than num_workers tasks running, no task twice, Run returns its own task's result, at most 2*num_workers already accepted jobs (queue + one per worker) start after Shutdown returned. scenario = (graph of <=4 nodes, optional failing target, fail-fast, num_workers) plus one external cancel event (what SIGINT/SIGTERM trigger via SetupCommand's context) delivered by a dedicated goroutine at ANY scheduling point; real Walker + pool under every choice sequence with <= d deviations; oracles: Walk returns, no command starts after the cancel was delivered, an interrupt with unfinished targets surfaces as an error. Non-trivial = at least one command ran. Process half (real binary, real signals): a workspace with num_workers=1, five short targets and a directory-output target; a fault-free run of the instrumented binary logs every instance of every file-system call site from loading to shutdown; for every instance (quick: <= 3 per call site, alternating SIGINT/SIGTERM; thorough: every instance with both signals) the process sends the signal to itself exactly there and writes a marker into the command trace: grog must exit within 60 s, at most one queued command may still start after the marker, the exit status is non-zero when targets were unfinished, the cache holds no more target results than commands that finished and passes the offline audit (no result referencing a blob that was not stored), and an uninstrumented follow-up build acquires the (stale) lock, exits 0 and produces the outputs of a from-scratch build. Finally the running command itself interrupts grog (SIGINT/SIGTERM, with and without a shell that traps the signals): non-zero exit, dependant not started, no cache entry, and the shell does not survive (it would create a marker file 2 s later). A command that leaves a long-lived child behind when interrupted does not delay the next build. A build that is still waiting for the workspace lock exits non-zero on SIGINT / SIGTERM without starting a command. A dependency that is re-run inside its dependant's task (load_outputs=minimal, blobs lost) and interrupts grog is terminated like any other command."
 		c.R.Assume("the signal is modelled as cancellation of the root context (console.SetupCommand does exactly that on SIGINT/SIGTERM)", "commands are stubs that, like exec.CommandContext, do not start under a cancelled context and are killed when it is cancelled")
 		walkCheckBudget("C18", []string{"C18:", "C04:walk-never-returns", "C04:panic"}, 2, 3, 35, 400)(c)
 		// the pool alone: after Shutdown has returned at most the already accepted jobs (queue + one per worker) may still start
